@@ -28,6 +28,10 @@ BEHAVIOURS = {
     "late-unsupported": "{ RdV = RsV; EA = RtV + siV; while (RsV) { RdV = 1; } }",
     "type-error": "{ const int32_t c = 1; RdV = RsV + siV; c = 2; }",
     "unknown-call": "{ RdV = RsV + clz32(RtV); RdV = no_such_function(RsV); }",
+    # literals whose type objects may be shared (negation of a constant mutates the type it was given)
+    "neg-big-literal": "{ RdV = ((RsV == -0x80000000) ? RtV : RsV); RddV = -0x8000000000000000LL; }",
+    "big-hex-literals": "{ RddV = 0x80000000; RdV = 0xffffffff + RsV; PdV = (RsV < 0xf0000000) ? 0xff : 0x00; }",
+    "dec-literals": "{ RddV = 2147483648; RdV = -1; RxV = -5 + RsV; RyyV = 4294967296 + RssV; }",
     # failures while a value-producing operation is still waiting for its consumer
     "fail-pending-call": "{ RdV = clz32(RsV) + no_such_function(RtV); }",
     "fail-pending-postfix": "{ int32_t i = 0; RdV = i++ + no_such_function(RtV); }",
